@@ -26,6 +26,8 @@ def run(ctx):
         # sections read with case normalisation compare session names case-insensitively; whether names that
         # differ only in case stay distinct is C13's business, so this alphabet has no case variants
         alphabet = names if case in (None, "preserve") else ["A", "B", "", "DEPT", "GR", "X"]
+        if case == "lower":
+            alphabet = [x.lower() for x in alphabet]
         t, m = curves.random_histories(ctx, rng, nrand if case is None else nrand // 4, 8, alphabet, read_case=case)
         traces += t
         meta += m
